@@ -292,10 +292,21 @@ def gen_site(rng, name, stitch_ids, del_id="primary", shared_edge=None):
         edges.append([a, b, {"Class": rel}])
 
     def cap():
-        return {del_id: canon_details({"pool_id": "_", "capacities": rng.choice(CAPS)})}
+        # single-resource delegation, pool definition, pool reference (C12's three formats)
+        r = rng.random()
+        if r < 0.7:
+            return {del_id: canon_details({"pool_id": "_", "capacities": rng.choice(CAPS)})}
+        if r < 0.85:
+            return {del_id: canon_details({"pool_id": name + "-cpool", "capacities": rng.choice(CAPS)})}
+        return {del_id: canon_details({"pool": name + "-cpool"})}
 
     def lab():
-        return {del_id: canon_details({"pool_id": "_", "labels": rng.choice(LABS)})}
+        r = rng.random()
+        if r < 0.7:
+            return {del_id: canon_details({"pool_id": "_", "labels": rng.choice(LABS)})}
+        if r < 0.85:
+            return {del_id: canon_details({"pool_id": name + "-lpool", "labels": rng.choice(LABS)})}
+        return {del_id: canon_details({"pool": name + "-lpool"})}
     sw = nd(name + "-sw", "NetworkNode", "Switch", name + "-data-sw", Site=name,
             cd=cap() if rng.random() < 0.5 else None)
     ns = nd(name + "-sw-ns", "NetworkService", "MPLS", name + "-ns", Layer="L2")
@@ -410,3 +421,139 @@ MALFORMED = [
     ("emptied-in-adm", "", None),
     ("empty-dict", None, {}),
 ]
+
+
+# --------------------------------------------------------------------------
+# deterministic corner cases (run first in both tiers) and the description of a case for the evidence histogram
+
+
+def _n(nid, ld=None, cd=None, **props):
+    p = {"Class": "ConnectionPoint", "Name": nid, "StitchNode": "true"}
+    p.update(props)
+    return [nid, p, ld, cd]
+
+
+def _cap(did, pool=None, ref=False):
+    if ref:
+        return {did: canon_details({"pool": pool})}
+    return {did: canon_details({"pool_id": pool or "_", "capacities": {"unit": 1}})}
+
+
+def _lab(did, pool=None, ref=False):
+    if ref:
+        return {did: canon_details({"pool": pool})}
+    return {did: canon_details({"pool_id": pool or "_", "labels": {"vlan_range": "10-20"}})}
+
+
+def corner_cases():
+    """[(name, family, ops)] - the situations an adversarial reviewer would try first."""
+    E = {"Class": "connects"}
+    out = []
+    # three models sharing one element; unmerge of the middle one, of the first one, then the rest
+    a = {"id": "adm-1", "nodes": [_n("hub", Model="one"), _n("a1", cd=_cap("primary"))], "edges": [["hub", "a1", dict(E)]]}
+    b = {"id": "adm-2", "nodes": [_n("hub", ld=_lab("d2"), Model="two"), _n("b1")], "edges": [["hub", "b1", dict(E)]]}
+    c = {"id": "adm-3", "nodes": [_n("c1"), _n("hub", Model="three")], "edges": [["c1", "hub", dict(E, Name="c")]]}
+    fam = [normalise_spec(x) for x in (a, b, c)]
+    out.append(("three-share-one:unmerge-middle", fam, [("merge", 0), ("merge", 1), ("merge", 2), ("unmerge", 1), ("snapshot",),
+                                                         ("unmerge", 0), ("unmerge", 2)]))
+    out.append(("three-share-one:unmerge-first-then-remerge", fam, [("merge", 0), ("merge", 1), ("merge", 2), ("unmerge", 0), ("merge", 0),
+                                                                     ("unmerge", 1), ("unmerge", 2), ("unmerge", 0)]))
+    # models sharing NO element
+    d1 = {"id": "adm-d1", "nodes": [_n("p1", cd=_cap("primary")), _n("p2")], "edges": [["p1", "p2", dict(E)]]}
+    d2 = {"id": "adm-d2", "nodes": [_n("q1", ld=_lab("primary"))], "edges": []}
+    fam = [normalise_spec(x) for x in (d1, d2)]
+    out.append(("disjoint", fam, [("merge", 0), ("merge", 1), ("unmerge", 0), ("merge", 0), ("unmerge", 1), ("unmerge", 0)]))
+    # the same model merged twice (no delegations: the second merge does not raise half-way), one unmerge, a second one
+    r = {"id": "adm-r", "nodes": [_n("x"), _n("y")], "edges": [["x", "y", dict(E)]]}
+    o = {"id": "adm-o", "nodes": [_n("y"), _n("z")], "edges": [["y", "z", dict(E)]]}
+    fam = [normalise_spec(x) for x in (r, o)]
+    out.append(("same-model-twice", fam, [("merge", 0), ("merge", 1), ("merge", 0), ("unmerge", 0), ("unmerge", 0), ("unmerge", 1)]))
+    # unmerge of a model never merged: on the empty combined model, on a non-empty one (index and foreign id)
+    out.append(("unmerge-never-merged", fam, [("unmerge", 1), ("merge", 0), ("unmerge", 1), ("unmerge", "primary"), ("unmerge", "adm"),
+                                              ("unmerge", 0)]))
+    # one kind of delegation only / pools; the speaker of a shared element changes over time
+    l1 = {"id": "adm-l", "nodes": [_n("s", ld=_lab("primary")), _n("l1", ld=_lab("primary", pool="lp"))], "edges": [["s", "l1", dict(E)]]}
+    c1 = {"id": "adm-c", "nodes": [_n("s", cd=_cap("d")), _n("c1", cd=_cap("d", pool="cp", ref=True))], "edges": [["s", "c1", dict(E)]]}
+    l2 = {"id": "adm-l2", "nodes": [_n("s", ld=_lab("other", pool="lp", ref=True)), _n("m")], "edges": [["s", "m", dict(E)]]}
+    fam = [normalise_spec(x) for x in (l1, c1, l2)]
+    out.append(("label-only/capacity-only/pools", fam, [("merge", 0), ("merge", 1), ("merge", 2), ("unmerge", 0), ("merge", 2), ("unmerge", 1),
+                                                         ("merge", 0), ("unmerge", 2), ("merge", 0), ("unmerge", 0)]))
+    # snapshots and rollbacks after several merges; a consumed snapshot; a snapshot that never existed
+    fam = [normalise_spec(x) for x in (a, b, c)]
+    out.append(("snapshots", fam, [("merge", 0), ("snapshot",), ("merge", 1), ("merge", 2), ("snapshot",), ("unmerge", 1), ("rollback", 1),
+                                   ("unmerge", 2), ("rollback", 0), ("rollback", 0), ("merge", 2), ("rollback", 7)]))
+    # a delegation model without elements (merge_adm asserts adm.graph_exists())
+    e0 = {"id": "adm-empty", "nodes": [], "edges": []}
+    fam = [normalise_spec(x) for x in (a, e0)]
+    out.append(("empty-model", fam, [("merge", 1), ("merge", 0), ("merge", 1), ("unmerge", 1), ("unmerge", 0)]))
+    # many common elements: the iteration order of the set of common ids is not the store order
+    ids = ["st%d" % i for i in range(7)] + ["k", "kk", "kkk"]
+    m1 = {"id": "adm-m1", "nodes": [_n(i) for i in ids], "edges": [[ids[i], ids[i + 1], dict(E)] for i in range(len(ids) - 1)]}
+    m2 = {"id": "adm-m2", "nodes": [_n(i, Model="m2") for i in reversed(ids)] + [_n("own", cd=_cap("primary"))],
+          "edges": [[ids[i], ids[i + 2], dict(E, Name="m2")] for i in range(len(ids) - 2)] + [[ids[0], ids[1], dict(E, Name="m2")], ["own", ids[3], dict(E)]]}
+    m3 = {"id": "adm-m3", "nodes": [_n(ids[4], cd=_cap("primary")), _n(ids[2]), _n(ids[8], cd=_cap("primary"))], "edges": []}
+    fam = [normalise_spec(x) for x in (m1, m2, m3)]
+    for perm in ((0, 1, 2), (2, 1, 0), (1, 2, 0)):
+        out.append(("many-common:%s" % "".join(map(str, perm)), fam, [("merge", j) for j in perm] + [("unmerge", perm[1]), ("unmerge", perm[0])]))
+    # conflict in the middle of the loop: the state left behind depends on the set order
+    x1 = {"id": "adm-x1", "nodes": [_n(i, cd=_cap("primary")) if i == "st3" else _n(i) for i in ids], "edges": []}
+    x2 = {"id": "adm-x2", "nodes": [_n(i, cd=_cap("primary")) if i == "st3" else _n(i) for i in ids[2:6]] + [_n("fresh")], "edges": [["fresh", "st4", dict(E)]]}
+    fam = [normalise_spec(x) for x in (x1, x2)]
+    out.append(("conflict-mid-loop", fam, [("merge", 0), ("merge", 1), ("unmerge", 1), ("unmerge", 0)]))
+    return out
+
+
+def describe(count, family, ops, cbm_sizes=None):
+    """Feature histogram of one case (what the generators cover goes into the evidence)."""
+    live, merges_since_start, nsnap = [], 0, 0
+    ids = [{n[0] for n in s["nodes"]} for s in family]
+    for op in ops:
+        if op[0] == "merge":
+            i = op[1]
+            mine = ids[i]
+            if i in live:
+                count("case:merge:model-already-merged")
+            else:
+                others = set()
+                for j in live:
+                    others |= ids[j]
+                if not live:
+                    count("case:merge:into-empty")
+                elif not (mine & others):
+                    count("case:merge:shares-no-element")
+                elif mine <= others:
+                    count("case:merge:all-elements-shared")
+                else:
+                    count("case:merge:shares-some")
+                k = sum(1 for j in live if ids[j] & mine)
+                if k >= 2 and any(len([j for j in live if n in ids[j]]) >= 2 for n in mine):
+                    count("case:merge:element-shared-by-3+")
+                live.append(i)
+            merges_since_start += 1
+        elif op[0] == "unmerge":
+            x = op[1]
+            if isinstance(x, str):
+                count("case:unmerge:foreign-id")
+            elif x not in live:
+                count("case:unmerge:model-not-merged")
+            else:
+                pos = live.index(x)
+                shares = any(ids[x] & ids[j] for j in live if j != x)
+                count("case:unmerge:%s%s" % ("last" if pos == len(live) - 1 else "first" if pos == 0 else "middle",
+                                             ":shares" if shares else ":shares-nothing"))
+                live.remove(x)
+        elif op[0] == "snapshot":
+            count("case:snapshot:after-%s-merges" % ("0" if merges_since_start == 0 else "1" if merges_since_start == 1 else "2+"))
+            nsnap += 1
+        elif op[0] == "rollback":
+            count("case:rollback:%s" % ("existing-index" if op[1] < nsnap else "no-such-snapshot"))
+    for s in family:
+        for n in s["nodes"]:
+            ld, cd = n[2], n[3]
+            kind = ("both" if ld and cd else "label-only" if ld else "capacity-only" if cd else None)
+            if kind:
+                count("node:delegation:" + kind)
+            for d in (ld, cd):
+                if isinstance(d, dict):
+                    for v in d.values():
+                        count("delegation-format:" + ("pool-reference" if '"pool":' in v else "single" if '"pool_id": "_"' in v else "pool-definition"))
